@@ -172,6 +172,10 @@ def check_case(case, rec):
             lens.trace_generic(0.0, 0.5, 0.0, 0.5, L.primary_wavelength(spec))
             lens.paraxial.XPL(); lens.paraxial.EPL()
             _WF(lens, fields=[(0.0, 0.0)], wavelengths=[L.primary_wavelength(spec)], num_rays=3, distribution='hexapolar')
+            # ... and the very field and wavelength that are analysed after the edit
+            _fm = max(abs(f[0]) for f in spec['fields'])
+            _WF(lens, fields=[(0.0, case['Hy'] if _fm > 0 else 0.0)], wavelengths=[float(spec['wavelengths'][case['wli']][0])],
+                num_rays=3, distribution='hexapolar')
         except Exception:
             pass       # the first use is not judged
         spec = L.apply_edits(lens, spec, case['edits'])
